@@ -277,6 +277,10 @@ func main() {
 				col.add("dfs", p, evs, o)
 				res.Eval(true)
 				cnt++
+				if o.Status != "done" {
+					res.Count("dfs_stopped_at_failure", 1)
+					break
+				}
 				if !d.Next() || cnt >= *maxruns {
 					if cnt >= *maxruns {
 						res.Count("dfs_truncated", 1)
